@@ -164,6 +164,8 @@ trait Cell: Send + Sync + 'static {
     fn forget(&self, h: Self::H) { std::mem::forget(h); }
     /// called on the worker thread when its program is over (thread-local inspection)
     fn exit_info(&self) -> Vec<u64> { vec![] }
+    /// size of the foreign heap allocation made by `Op::Malloc`
+    fn junk_size(&self) -> usize { 40 }
 }
 
 const ABORT_MSG: &str = "zv-abort";
@@ -189,7 +191,8 @@ fn worker<C: Cell>(cell: Arc<C>, baton: Arc<Baton>, tid: usize) {
     // pre-sized so that the vectors never allocate while the program runs (the secure-pool ABA
     // witness depends on which freed stack node the next same-sized malloc returns)
     let mut held: Vec<C::H> = Vec::with_capacity(64);
-    let mut junk: Vec<Box<[u8; 40]>> = Vec::with_capacity(64);
+    let mut junk: Vec<Vec<u8>> = Vec::with_capacity(64);
+    let junk_size = cell.junk_size();
     baton.wait_turn(tid);
     loop {
         let (cmd, fin) = {
@@ -215,7 +218,7 @@ fn worker<C: Cell>(cell: Arc<C>, baton: Arc<Baton>, tid: usize) {
                 } else { OpResult::Done }
             }
             Some((Op::Scribble(_, _), _)) => OpResult::Done,
-            Some((Op::Malloc, _)) => { junk.push(Box::new([0xA5u8; 40])); OpResult::Done }
+            Some((Op::Malloc, _)) => { let mut v: Vec<u8> = Vec::with_capacity(junk_size); v.push(0xA5); junk.push(v); OpResult::Done }
         };
         {
             let mut g = baton.m.lock().unwrap_or_else(|e| e.into_inner());
@@ -497,6 +500,8 @@ impl Cell for SpCell {
     fn free(&self, h: Self::H) { drop(h); }
     fn scribble(&self, h: &mut Self::H, v: u64) { for b in h.as_mut_slice().iter_mut() { *b = v as u8; } }
     fn exit_info(&self) -> Vec<u64> { self.pool.verif_local_cache_chunks().into_iter().map(|x| x as u64).collect() }
+    // same malloc size class as a node of the shared stack, so that the allocator may reuse a popped node's address
+    fn junk_size(&self) -> usize { self.pool.verif_stack_node_size() }
 }
 
 /// Walk an offset-linked free list defensively: every element must be a block that was handed out at some
@@ -550,7 +555,7 @@ fn parse_case(c: &Value) -> (String, usize, usize, Vec<Vec<Op>>, Vec<usize>) {
 }
 
 fn norm_site(site: u32) -> u64 {
-    // 11..15 / 31..35 -> 1..5 (pop), 21..24 / 41..44 -> 11..14 (push)
+    // 11..16 / 31..35 -> 1..6 (pop), 21..24 / 41..44 -> 11..14 (push)
     let d = (site % 10) as u64;
     match site / 10 { 1 | 3 | 5 | 7 => d, _ => 10 + d }
 }
@@ -570,7 +575,17 @@ fn emit_coq(cx: &mut Ctx, kind: u32, bsize: u64, cap: u64, n: usize, out: &RunOu
     cx.shards.push(term, c2);
 }
 
-fn lf_slot_size(size: usize) -> usize { (size + 7) & !7 }
+/// lockfree_pool.rs FAST_BIN_SIZES: a fresh block is carved at the size of its class.
+const LF_BIN_SIZES: [usize; 64] = [
+    8, 16, 24, 32, 40, 48, 56, 64, 72, 80, 88, 96, 104, 112, 120, 128,
+    144, 160, 176, 192, 208, 224, 240, 256, 288, 320, 352, 384, 416, 448, 480, 512,
+    576, 640, 704, 768, 832, 896, 960, 1024, 1152, 1280, 1408, 1536, 1664, 1792, 1920, 2048,
+    2304, 2560, 2816, 3072, 3328, 3584, 3840, 4096, 4608, 5120, 5632, 6144, 6656, 7168, 7680, 8192,
+];
+fn lf_slot_size(size: usize) -> usize {
+    let a = (size + 7) & !7;
+    LF_BIN_SIZES.iter().cloned().find(|&b| a <= b).unwrap_or(a)
+}
 
 /// LockFreeMemoryPool under a controlled schedule.
 fn run_lf(cx: &mut Ctx, size: usize, slots: usize, progs: &[Vec<Op>], sched: &[usize], force: bool) {
@@ -1420,7 +1435,10 @@ pub fn run(args: &Args) {
             if i % stride != 0 { continue; }
             let mut sched = pre.clone();
             sched.extend(il);
-            run_lf(&mut cx, 64, 6, &[p0.clone(), p1.clone()], &sched, false);
+            // lockfree_pool.rs carves with load + compare-exchange: one more step per fresh block
+            let mut sched_lf = vec![0usize; 3];
+            sched_lf.extend(&sched);
+            run_lf(&mut cx, 64, 6, &[p0.clone(), p1.clone()], &sched_lf, false);
             run_fl(&mut cx, 64, 6, &[p0.clone(), p1.clone()], &sched, false);
             if i % (stride * 3) == 0 { run_fc(&mut cx, 40, 4, &[vec![Op::Alloc, Op::Alloc, Op::Free(0), Op::Free(0), Op::Alloc], p1.clone()], &sched[10..]); }
         }
